@@ -33,6 +33,7 @@ Subset and semantics (what the translator *assumes*, i.e. the trusted part):
 from __future__ import annotations
 
 import ast
+import re
 import os
 from fractions import Fraction
 
@@ -96,7 +97,7 @@ class Translator:
             self.classes[alias] = self.classes[real]
         self.units = {}  # name -> coq text
         self.order = []
-        self.used_oracles = set()
+        self.used_oracles = {}  # name -> Coq type of the uninterpreted function
         self.sigs = {}  # name -> (param tys, self ty, ret ty)
         self.layout_cache = {}
         self.inprogress = set()
@@ -370,7 +371,7 @@ class Translator:
             "From FV Require Import NumSys Py NumX Queue.",
             "Import ListNotations.",
             "Section Gen.",
-            "  Context {A : Arith}" + "".join(f" ({o} : num A -> num A)" for o in sorted(self.used_oracles)) + ".",
+            "  Context {A : Arith}" + "".join(f" ({o} : {t})" for o, t in sorted(self.used_oracles.items())) + ".",
         ]
         for n in self.order:
             f, ln, q = self.sources[n]
@@ -1068,6 +1069,14 @@ class Frame:
             if any(isinstance(v, O) for v in vs):
                 raise Unsupported("tuple of objects")
             return V("(" + ", ".join(v.e for v in vs) + ")", ("tuple", [v.ty for v in vs]))
+        if isinstance(n, ast.List) and len(n.elts) == 1 and isinstance(n.elts[0], ast.Starred) and isinstance(n.elts[0].value, ast.Call) \
+                and ast.unparse(n.elts[0].value.func) == "itertools.islice" and len(n.elts[0].value.args) == 3 and not n.elts[0].value.keywords:
+            # [*itertools.islice(seq, start, stop)] : the elements start .. stop-1 (islice rejects negative bounds)
+            seq, a, b = (self.ev(x) for x in n.elts[0].value.args)
+            if not (isinstance(seq, V) and isinstance(seq.ty, tuple) and seq.ty[0] == "list" and a.ty == INT and b.ty == INT):
+                raise Unsupported("itertools.islice typing")
+            self.guard(f"(orb (Z.ltb {a.e} 0%Z) (Z.ltb {b.e} 0%Z))", "ValueError")
+            return V(f"(firstn (Z.to_nat (Z.sub {b.e} {a.e})) (skipn (Z.to_nat {a.e}) {seq.e}))", seq.ty)
         if isinstance(n, ast.Call):
             return self.call_expr(n)
         raise Unsupported(f"expression {type(n).__name__}: {ast.unparse(n)[:80]}")
@@ -1379,7 +1388,7 @@ class Frame:
         if k[0] == "oracle":
             if len(n.args) != 1 or n.keywords:
                 raise Unsupported("oracle call with other than one positional argument")
-            self.tr.used_oracles.add(k[1])
+            self.tr.used_oracles[k[1]] = "num A -> num A"
             return V(f"({k[1]} {coerce(self.ev(n.args[0]), NUM).e})", NUM)
         if k[0] != "method":
             raise Unsupported(f"effectful call inside an expression: {ast.unparse(n)[:60]}")
@@ -1460,6 +1469,28 @@ class Frame:
             elif a.ty != NONE:
                 raise Unsupported("np.random.seed argument")
             return V("tt", UNIT)
+        if name == "np.random.choice":
+            kw = {k.arg: k.value for k in n.keywords}
+            if n.args or set(kw) != {"a", "size", "replace"} or not (isinstance(kw["replace"], ast.Constant) and kw["replace"].value is False):
+                raise Unsupported("np.random.choice other than choice(a=list, size=k, replace=False)")
+            a, k = self.ev(kw["a"]), self.ev(kw["size"])
+            if not (isinstance(a.ty, tuple) and a.ty[0] == "list" and a.ty[1] == NUM and k.ty == INT):
+                raise Unsupported("np.random.choice typing")
+            # NumPy: ValueError for a negative size or a sample larger than the population (replace=False)
+            self.guard(f"(orb (Z.ltb {k.e} 0%Z) (Z.ltb (Z.of_nat (length {a.e})) {k.e}))", "ValueError")
+            self.tr.used_oracles["np_choice"] = "list (num A) -> Z -> list (num A)"
+            return V(f"(np_choice {a.e} {k.e})", a.ty)
+        if name == "ks_2samp":
+            kw = {k.arg: k.value for k in n.keywords}
+            if n.args or not {"data1", "data2"} <= set(kw):
+                raise Unsupported("ks_2samp call shape")
+            d1, d2 = self.ev(kw["data1"]), self.ev(kw["data2"])
+            if not all(isinstance(d.ty, tuple) and d.ty[0] == "list" and d.ty[1] == NUM for d in (d1, d2)):
+                raise Unsupported("ks_2samp typing")
+            opts = "_".join(f"{k}_{kw[k].value}" for k in sorted(kw) if k not in ("data1", "data2") and isinstance(kw[k], ast.Constant))
+            oname = "ks_2samp_" + re.sub(r"[^A-Za-z0-9_]", "_", opts) if opts else "ks_2samp"
+            self.tr.used_oracles[oname] = "list (num A) -> list (num A) -> num A * num A"
+            return V(f"({oname} {d1.e} {d2.e})", ("tuple", [NUM, NUM]))
         if name in ("np.count_nonzero", "np.sum") and len(args) == 1 and args[0].ty == BOOL and not n.keywords:
             return V(f"(b2z {args[0].e})", INT)
         if name == "np.sum" and len(args) == 1 and args[0].ty in (INT, NUM) and not n.keywords:
@@ -1491,6 +1522,26 @@ class Frame:
 
     def call_stmt(self, n, blk):
         """effectful call at statement level; returns the result value (V, O or None)"""
+        f = n.func
+        if isinstance(f, ast.Attribute) and f.attr in ("append", "clear") and isinstance(f.value, ast.Attribute) and isinstance(f.value.value, ast.Name) \
+                and f.value.value.id == "self" and isinstance(self.self, O):
+            dq = self.tr.spec.get("deques", {}).get((self.tr.spec.get("aliases", {}).get(self.self.cls, self.self.cls), f.value.attr))
+            if dq is not None:
+                # a collections.deque(maxlen=config.<attr>) held in a storage field, mutated in place (no setter runs)
+                storage, maxattr = dq
+                w = self.getattr(self.self, f.value.attr)
+                if f.attr == "clear" and not n.args and not n.keywords:
+                    self.setfield(self.self, storage, V("[]", w.ty), blk)
+                    return None
+                if f.attr == "append" and len(n.args) == 1 and not n.keywords:
+                    x = coerce(self.ev(n.args[0]), w.ty[1])
+                    cap = self.getattr(self.getattr(self.self, "config"), maxattr)
+                    ext = self.tr.name("appended_")
+                    blk.let(ext, f"({w.e} ++ [{x.e}])")
+                    # maxlen: the oldest elements beyond the capacity are dropped
+                    self.setfield(self.self, storage, V(f"(skipn (Nat.sub (length {ext}) (Z.to_nat {cap.e})) {ext})", w.ty), blk)
+                    return None
+                raise Unsupported("deque call shape")
         k = self.callee(n)
         if k[0] == "builtin":
             return self.builtin(k[1], n)
